@@ -609,9 +609,14 @@ class cleanup_functools_wrapper(object):
         try:
             for attr in self.attrs:
                 try:
-                    val = getattr(self.func, attr)
+                    try:
+                        # the object's own entry: for a class, not what a
+                        # descriptor stored there evaluates to
+                        val = vars(self.func)[attr]
+                    except TypeError:
+                        val = getattr(self.func, attr)
                     delattr(self.func, attr)
-                except AttributeError:
+                except (AttributeError, KeyError):
                     pass
                 else:
                     self.saved_attrs[attr] = val
